@@ -165,7 +165,7 @@ def handle : Handler := fun fn args =>
       let labels ← asList asInt (← argAt args 0)
       let n ← asNat (← argAt args 1)
       .ok (intssJson (onehot labels n (1 : Int) 0))
-  | "invert_perm" => do .ok (natsJson (invertPerm (← asList asNat (← argAt args 0))))
+  | "invert_perm" => do .ok (natsJson (invertPermI (← asList asInt (← argAt args 0))))
   | "scan_perm" => do .ok (natsJson (scanPerm (← asList asNat (← argAt args 0)) (← asNat (← argAt args 1))))
   | "transpose" => do
       let x ← arrOfJson (← argAt args 0)
@@ -173,11 +173,11 @@ def handle : Handler := fun fn args =>
       .ok (arrToJson (x.transpose perm))
   | "scan_in_dim" => do
       let x ← arrOfJson (← argAt args 0)
-      let axis ← asList asNat (← argAt args 1)
+      let axis ← asList asInt (← argAt args 1)
       let keepdims ← asBool (← argAt args 2)
       let kind ← asNat (← argAt args 3)
       let init ← asInt (← argAt args 4)
-      let r := scanInDim (scanBody kind) init x axis keepdims
+      let r := scanInDimI (scanBody kind) init x axis keepdims
       .ok (Json.mkObj [("carry", Json.num r.1), ("ys", arrToJson r.2)])
   | _ => .error "bad-op"
 
